@@ -409,19 +409,14 @@ def inductive_contig(R, rep, genome, contig, Lc, lemma_cache, timeout):
     else:
         R.ob(name, 'not_discharged', 0.0, {'base': str(base_val)})
         return [], (lambda res: None)
-    # the FP lemma behind the integer reading of math.ceil(L / x)
+    # the FP lemma behind the integer reading of math.ceil(L / x) is posted by part_a (once per distinct length)
     jobs = []
     for a, b in it1.lemmas:
         if not (isinstance(a, int) and a == Lc):
             raise HarnessError('calc_parts: math.ceil(a/b) with a numerator other than the contig length')
     need_lemma = bool(it1.lemmas)
-    if need_lemma and Lc not in lemma_cache:
-        x = z3.BitVec('x', 64)
-        q = z3.fpDiv(pyk.RNE, z3.FPVal(float(Lc), pyk.F64), z3.fpSignedToFP(pyk.RNE, x, pyk.F64))
-        pyc = z3.fpToSBV(z3.RTP(), q, z3.BitVecSort(64))
-        intc = z3.UDiv(z3.BitVecVal(Lc, 64) + x - 1, x)
-        lemma_cache[Lc] = ('lemma', Lc)
-        jobs.append((('lemma', Lc), pyk.smt2([x >= 1, x < SMAX, pyc != intc], 'QF_BVFP'), ('z3old', 'cvc5'), timeout))
+    if need_lemma:
+        lemma_cache.setdefault(Lc, None)
 
     # -- run 2: arbitrary loop-head state satisfying the invariant ----------------------------------------
     it2 = mk()
@@ -506,6 +501,8 @@ def inductive_contig(R, rep, genome, contig, Lc, lemma_cache, timeout):
         ('exit: loop leaves only when n = L+1 [class: n = L, exactly the last base dropped]', orr(v_exit1), [CLS_LAST], r_exit),
     ]
     plan = []
+    # counterexamples are searched first where the REAL function can be replayed (at most ~200000 intervals)
+    replayable = S2.t * 200000 >= Lt
     for label, vio, classes, reach in queries:
         name = f'{tag}, every interval_size in [1,2^31): {label}'
         if z3.is_false(vio):
@@ -513,44 +510,53 @@ def inductive_contig(R, rep, genome, contig, Lc, lemma_cache, timeout):
             continue
         key = ('q', tag, label)
         jobs.append((key, pyk.smt2(pre + [vio], 'QF_NIA'), ('z3new', 'cvc5'), timeout))
+        if classes is not None:
+            jobs.append((key + ('replayable',), pyk.smt2(pre + [vio, replayable], 'QF_NIA'), ('z3new', 'cvc5'), timeout))
         plan.append((name, key, classes, reach))
     R.transitions += len(paths2)
 
-    def finish(res):
-        lem_ok = True
-        if need_lemma:
-            r, model, dt, solver = res[('lemma', Lc)]
-            lname = f'{tag}: Float64 lemma math.ceil({Lc}/x) == ceil-div for 1 <= x < 2^31'
-            if r == 'unsat':
-                R.ob(lname, 'discharged', dt, {'solver': solver}, nontrivial=True)
-            elif r == 'sat':
-                xv = model['x']
-                if math.ceil(Lc / xv) == -((-Lc) // xv):
-                    raise HarnessError(f'{lname}: solver model x={xv} is not a counterexample under CPython')
-                R.ob(lname, 'not_discharged', dt, {'note': 'lemma false; integer cut not justified', 'x': xv})
-                lem_ok = False
-            elif r == 'error':
-                raise HarnessError(f'{lname}: solver error {str(model)[:400]}')
-            else:
-                R.ob(lname, 'not_discharged', dt, {'result': r})
-                lem_ok = False
+    def finish(res, lem_ok):
         for name, key, classes, reach in plan:
             if key is None:
                 R.ob(name, 'discharged' if (reach and lem_ok) else 'not_discharged', 0.0, {'note': 'no such path'}, nontrivial=reach)
                 continue
             r, model, dt, solver = res[key]
+            if classes is not None:
+                r2, model2, dt2, solver2 = res[key + ('replayable',)]
+                if r2 == 'error':
+                    raise HarnessError(f'{name}: solver error {str(model2)[:400]}')
+                if r2 == 'sat':
+                    rep.counterexample(name, dt2, genome, contig, Lc, model2['size'], classes, solver2, inductive=True)
+                    continue
             if r == 'unsat':
                 R.ob(name, 'discharged' if (reach and lem_ok) else 'not_discharged', dt, {'solver': solver}, nontrivial=reach)
             elif r == 'sat':
                 if classes is None:
                     R.ob(name, 'not_discharged', dt, {'note': 'invariant template not inductive', 'model': str(model)})
-                else:
+                elif model['size'] * 400000 >= Lc:
                     rep.counterexample(name, dt, genome, contig, Lc, model['size'], classes, solver, inductive=True)
+                else:
+                    R.ob(name, 'not_discharged', dt, {'note': 'counterexample needs too many intervals to replay on the real '
+                                                      'function', 'size': model['size']})
             elif r == 'error':
                 raise HarnessError(f'{name}: solver error {str(model)[:400]}')
             else:
                 R.ob(name, 'not_discharged', dt, {'solver': solver, 'result': r})
     return jobs, finish
+
+
+def lemma_jobs(Lc, timeout):
+    """Float64 lemma for one contig length, split by the magnitude of x (each chunk is one query)."""
+    SMAX = 1 << 31
+    chunks = [(1, SMAX)] if Lc < (1 << 20) else [(1 << k, 1 << (k + 1)) for k in range(31)]
+    out = []
+    for lo, hi in chunks:
+        x = z3.BitVec('x', 64)
+        q = z3.fpDiv(pyk.RNE, z3.FPVal(float(Lc), pyk.F64), z3.fpSignedToFP(pyk.RNE, x, pyk.F64))
+        pyc = z3.fpToSBV(z3.RTP(), q, z3.BitVecSort(64))
+        intc = z3.UDiv(z3.BitVecVal(Lc, 64) + x - 1, x)
+        out.append((('lemma', Lc, lo, hi), pyk.smt2([x >= lo, x < hi, pyc != intc], 'QF_BVFP'), ('z3old', 'cvc5'), timeout))
+    return out
 
 
 def part_a(R):
@@ -574,25 +580,55 @@ def part_a(R):
         by = {c['name']: c['length'] for c in cfg['contigs']}
         for c in CONTIGS[g]:
             lengths[(g, c)] = by[c]
-    todo = [('GRCh37', '1'), ('GRCh38', 'chrY'), ('GRCh38', 'chrM')] if quick else list(lengths)
+    todo = [('GRCh37', '1'), ('GRCh38', 'chr21'), ('GRCh38', 'chrM')] if quick else list(lengths)
+    # the Float64 lemma is attempted for these lengths only (each large length costs 31 FP queries)
+    lemma_for = {lengths[k] for k in ([('GRCh38', 'chrM')] if quick else [('GRCh38', 'chrM'), ('GRCh37', '1'), ('GRCh38', 'chr1')])}
     lemma_cache = {}
     jobs, finishers = [], []
     t0 = time.time()
     for g, c in todo:
-        j, fin = inductive_contig(R, rep, g, c, lengths[(g, c)], lemma_cache, 120 if quick else 600)
+        j, fin = inductive_contig(R, rep, g, c, lengths[(g, c)], lemma_cache, 30 if quick else 200)
         jobs += j
-        finishers.append(fin)
-    R.log(f'[C38a] real-contig family: {len(todo)} contigs, {len(jobs)} SMT queries prepared in {time.time() - t0:.1f}s')
+        finishers.append((lengths[(g, c)], fin))
+    ljobs = []
+    for Lc in sorted(lemma_cache):
+        if Lc in lemma_for:
+            ljobs += lemma_jobs(Lc, 100 if quick else 400)
+    R.log(f'[C38a] real-contig family: {len(todo)} contigs, {len(jobs)} NIA queries + {len(ljobs)} Float64 lemma queries, '
+          f'prepared in {time.time() - t0:.1f}s')
     t0 = time.time()
-    res = pyk.portfolio_many(jobs, workers=4)
-    for L0, v in list(lemma_cache.items()):
-        if v in res:
-            lemma_cache[L0] = res[v]
-    for k2, v in lemma_cache.items():
-        res[('lemma', k2)] = v
+    res = pyk.portfolio_many(ljobs + jobs, workers=4)
     R.log(f'[C38a] real-contig family solved in {time.time() - t0:.1f}s')
-    for fin in finishers:
-        fin(res)
+    lem_ok = {}
+    for Lc in sorted(lemma_cache):
+        who = ', '.join(f'{g}:{c}' for (g, c), v in lengths.items() if v == Lc and (g, c) in todo)
+        if Lc not in lemma_for:
+            R.ob(f'Float64 lemma math.ceil({Lc}/x) == ceil-div, 1 <= x < 2^31 ({who})', 'not_discharged', 0.0,
+                 {'note': 'not attempted in this tier (budget); obligations of this contig are discharged only modulo this lemma'})
+            lem_ok[Lc] = None
+            continue
+        ok = True
+        for key, _, _, _ in [j for j in ljobs if j[0][1] == Lc]:
+            r, model, dt, solver = res[key]
+            lname = f'Float64 lemma math.ceil({Lc}/x) == ceil-div, {key[2]} <= x < {key[3]} ({who})'
+            if r == 'unsat':
+                R.ob(lname, 'discharged', dt, {'solver': solver}, nontrivial=True)
+            elif r == 'sat':
+                xv = model['x']
+                if math.ceil(Lc / xv) == -((-Lc) // xv):
+                    raise HarnessError(f'{lname}: solver model x={xv} is not a counterexample under CPython')
+                R.ob(lname, 'not_discharged', dt, {'note': 'lemma false; integer cut not justified', 'x': xv})
+                ok = False
+            elif r == 'error':
+                raise HarnessError(f'{lname}: solver error {str(model)[:400]}')
+            else:
+                R.ob(lname, 'not_discharged', dt, {'result': r})
+                ok = False
+        lem_ok[Lc] = ok
+    for Lc, fin in finishers:
+        # lemma not attempted: dependent obligations keep their own verdict (the lemma is listed as not discharged);
+        # lemma attempted and failed: dependents are not discharged
+        fin(res, lem_ok.get(Lc, True) is not False)
     R.bounds.update({'bounded family': f'1 <= L <= {Lmax}, 1 <= interval_size <= {Lmax + 1}, both symbolic, unwinding {Lmax + 1}',
                      'real-contig family': f'{len(todo)} (genome, contig) pairs with their real lengths; 1 <= interval_size < 2^31 '
                      'symbolic; loop length unbounded (invariant)'})
